@@ -9,7 +9,7 @@ import struct
 
 FLOATS = [0.5, 1.5, 2.25, 0.125, 3.0, 10.5, 0.75]
 HAZARDS = ["retype-int-then-float", "retype-float-then-int", "retype-in-branch", "retype-in-loop", "retype-aug", "int-true-division", "and-or-value",
-           "neg-bool", "stale-var-type", "branch-order", "loop-last-wins", "loop-last-wins-aug", "bool-aug", "copy-after-aug"]
+           "neg-bool", "stale-var-type", "branch-order", "loop-last-wins", "loop-last-wins-aug", "bool-aug", "copy-after-aug", "builtin-float-result", "sibling-branch-narrowing"]
 
 
 def f64hex(x: float) -> str:
@@ -32,7 +32,9 @@ class TyGen:
         r = self.r
         if d <= 0 or r.random() < 0.35:
             return ("v", r.choice(sc["int"])) if sc["int"] and r.random() < 0.6 else ("i", r.randint(0, 9))
-        k = r.choice(["add", "sub", "mul", "neg", "ite", "boolarith"])
+        k = r.choice(["add", "sub", "mul", "neg", "ite", "boolarith", "boolsum"])
+        if k == "boolsum":      # bool + bool is an int in Python (counting votes) and in the parser's table
+            return (r.choice(["add", "mul", "sub"]), self.bool_e(sc, d - 1), self.bool_e(sc, d - 1))
         if k in ("add", "sub", "mul"):
             return (k, self.int_e(sc, d - 1), self.int_e(sc, d - 1))
         if k == "neg":
@@ -190,6 +192,13 @@ class TyGen:
             return [("if", [cond], [[("as", x, a)]], [("as", x, b)]), ("wr", x)]
         if h == "loop-last-wins":
             return [("for", self.fresh("k"), 2, [("as", x, ("i", 1)), ("as", x, ("add", ("v", x), ("f", 0.5)))]), ("wr", x)]
+        if h == "sibling-branch-narrowing":
+            # an earlier branch re-assigns a float name with an int; a LATER sibling branch first-assigns a new name from it
+            return [("as", x, ("f", 2.5)), ("if", [("lt", ("i", 1), ("i", 0)), ("lt", ("i", 0), ("i", 1))],
+                                            [[("as", x, ("i", 1))], [("as", x + "s", ("mul", ("v", x), ("i", 3)))]], None), ("wr", x + "s")]
+        if h == "builtin-float-result":
+            f = r.choice([("call", "abs", [("neg", ("f", 2.5))]), ("call", "max", [("f", 1.5), ("f", 2.25)]), ("call", "min", [("f", 1.5), ("i", 4)])])
+            return [("as", x, f), ("wr", x)]
         if h == "loop-last-wins-aug":
             return [("for", self.fresh("k"), 2, [("as", x, ("i", 1)), ("aug", x, "add", ("f", 0.5))]), ("wr", x)]
         if h == "bool-aug":
@@ -234,6 +243,7 @@ def py_e(e):
     if k == "s": return '"' + e[1] + '"'
     if k == "v": return e[1]
     if k == "neg": return f"(-{py_e(e[1])})"
+    if k == "call": return f"{e[1]}({', '.join(py_e(a) for a in e[2])})"
     if k == "not": return f"(not {py_e(e[1])})"
     if k == "ite": return f"({py_e(e[2])} if {py_e(e[1])} else {py_e(e[3])})"
     return f"({py_e(e[1])} {PYOP[k]} {py_e(e[2])})"
@@ -281,6 +291,7 @@ def sx_e(e):
     if k == "b": return f"(b {'T' if e[1] else 'F'})"
     if k == "s": return f"(s {e[1].encode().hex()})"
     if k == "v": return f"(v {e[1]})"
+    if k == "call": return "(i 0)"       # abs/max/min: the parser's table says int; the value is outside the model (oracle only)
     if k in ("neg", "not"): return f"({k} {sx_e(e[1])})"
     if k == "ite": return f"(ite {sx_e(e[1])} {sx_e(e[2])} {sx_e(e[3])})"
     return f"({k} {sx_e(e[1])} {sx_e(e[2])})"
